@@ -1,17 +1,18 @@
 package verifharness
 
 import (
+	"bytes"
 	"fmt"
 	"testing"
 
 	"pgregory.net/rapid"
 )
 
-const c03Rule = "crash-point enumeration: each rapid-generated history (2-25 ops: SetItem/Set/Delete/Flush/evict/re-open/SetCollection/RemoveCollection, values incl. magic-marker fragments and run-time copies of the file's own root records; a final Flush is forced) runs once on a write-logging file; then for EVERY write i and EVERY byte count j in [0,len] the image 'writes 1..i-1 complete + first j bytes of write i' is rebuilt and opened with NewStore: no panic, contents == model of the last flush whose root-record write lies completely inside the image (all collections together), or empty store / 'couldn't find roots' if none; a fresh store on a copy agrees. On every cut inside a root record (3 cut points) and on drawn other cuts a generated continuation (1-6 mutations + Flush) runs on the recovered store with the durability oracle on, and that flush is torn once more. evaluations = images opened; non-trivial = the cut lies strictly inside a flush that follows a completed flush with a different state; distinct by (history hash, i, j)."
+const c03Rule = "crash-point enumeration: each rapid-generated history (2-25 ops: SetItem/Set/Delete/Flush/evict/re-open/SetCollection/RemoveCollection, values incl. magic-marker fragments and run-time copies of the file's own root records; a final Flush is forced) runs once on a write-logging file; then for EVERY write i and EVERY byte count j in [0,len] the image 'writes 1..i-1 complete + first j bytes of write i' is rebuilt and opened with NewStore: no panic, contents == model of the last flush whose root-record write lies completely inside the image (all collections together), or empty store / 'couldn't find roots' if none; a fresh store on a copy agrees; every cut is checked a second time with junk appended (random bytes, marker fragments, truncated or relocated copies of the file's own root records, zeros). On every cut inside a root record (3 cut points) and on drawn other cuts a generated continuation (1-6 mutations + Flush) runs on the recovered store with the durability oracle on, and that flush is torn once more. evaluations = images opened; non-trivial = the cut lies strictly inside a flush that follows a completed flush with a different state; distinct by (history hash, i, j)."
 
 func TestC03(t *testing.T) {
 	st := NewStats("C03", c03Rule, append(append([]string{}, commonAssumptions...),
-		"a crash leaves a prefix of the issued writes, the last one possibly torn at any byte (no reordering, no junk beyond the cut)",
+		"a crash leaves a prefix of the issued writes, the last one possibly torn at any byte (no reordering), optionally followed by junk that is not a complete self-consistent root record",
 		"a value that is a complete self-consistent root record is excluded by the property's own wording; relocated or truncated copies are generated",
 		"FlushRevert is not part of crash histories (C08)"))
 	st.Extra["counts_units"] = "evaluations are crash images; -rapid.checks counts histories"
@@ -40,6 +41,9 @@ func TestC03(t *testing.T) {
 		cont := genCont.Draw(rt, "continuation").Ops
 		cont = append(cont, Op{K: OpFlush})
 		extraCuts := rapid.SliceOfN(rapid.IntRange(0, 1<<20), 0, 3).Draw(rt, "extracuts")
+		junkKind := rapid.IntRange(0, 4).Draw(rt, "junkkind")
+		junkPick := rapid.IntRange(0, 1000).Draw(rt, "junkpick")
+		junkRaw := rapid.SliceOfN(rapid.Byte(), 1, 40).Draw(rt, "junkraw")
 		histories++
 
 		var rec *crashRecording
@@ -91,10 +95,29 @@ func TestC03(t *testing.T) {
 			if co != nil {
 				fc.Cfg.Workers = [][]Op{co}
 			}
-			v, ev := guarded("C03", fc, func() (*Violation, map[string]int) { return rec.checkImage(c, i, j, co) })
+			v, ev := guarded("C03", fc, func() (*Violation, map[string]int) { return rec.checkImage(c, i, j, co, nil) })
 			if v != nil {
 				p := saveFailure("C03", fc, v)
 				rt.Fatalf("VIOLATION-CANDIDATE property=C03 sig=%q case=%s\n%s\ncase: %s", v.Sig, p, v.Error(), fc.String())
+			}
+			// the same cut with junk left behind it
+			junk, ok := rec.junkFor(junkKind, junkPick, junkRaw, len(rec.imageAt(i, j)))
+			if ok && i < len(rec.writes) && rec.isRootWrite(i) && bytes.HasPrefix(junk, rec.writes[i].Data[j:]) {
+				ok = false // the junk would complete the torn root record: a complete, self-consistent record
+				st.Excluded++
+			}
+			if ok {
+				jc := fc
+				jc.Cfg.Junk = junk
+				jc.Cfg.Workers = nil
+				vj, evj := guarded("C03", jc, func() (*Violation, map[string]int) { return rec.checkImage(c, i, j, nil, junk) })
+				if vj != nil {
+					p := saveFailure("C03", jc, vj)
+					rt.Fatalf("VIOLATION-CANDIDATE property=C03 sig=%q case=%s\n%s\ncase: %s", vj.Sig, p, vj.Error(), jc.String())
+				}
+				evj["junk_variant"]++
+				evj[fmt.Sprintf("junk_kind_%d", junkKind%5)]++
+				st.Note(base^(uint64(i)*0x9E3779B97F4A7C15+uint64(j)*0xC2B2AE3D27D4EB4F+0x5bd1e995), evj, false, nil)
 			}
 			// non-trivial: cut strictly inside a flush that follows a completed flush with a different state
 			nontrivial := false
